@@ -135,7 +135,7 @@ Theorem C15_zscore_equivariant : forall (np_sqrt : Qc -> Qc) sh (a b : Qc) data 
   rel_of (affine a b) data data' -> rel_of (affine a b) loc loc' -> rel_of (scale (Qcabs a)) sc sc' ->
   let '(z, _, s) := ztail nd_memo data loc sc axis in
   let '(z', _, s') := ztail nd_memo data' loc' sc' axis in
-  let fired := Qcleb (rd sc I) (rd (nd_memo (np_mul (scalar float32_eps) (np_reduce max1 (np_abs (nd_memo (np_sub data loc))) axis true))) I) in
+  let fired := Qcleb (rd sc I) (rd (nd_memo (np_mul (scalar float32_tiny) (np_reduce max1 (np_abs (nd_memo (np_sub data loc))) axis true))) I) in
   (rd s' I = if fired then qz 1 else scale (Qcabs a) (rd s I)) /\
   (fired = false -> rd z' I = (a / Qcabs a * rd z I)%Qc) /\ (fired = true -> rd z' I = (a * rd z I)%Qc).
 Proof. exact (fun np_sqrt => zscore_equivariant np_sqrt nd_memo memo_ok_nd_memo). Qed.
